@@ -185,3 +185,138 @@ Theorem C16_nonvacuous :
   iso_format ex_off_local ex_off_utc ex_w_gap = DOk (U "2024-03-10T03:30:00-04:00") /\
   exists_in_zone ex_off_local ex_off_utc ex_w_after = true.
 Proof. exact ex_roundtrip_hyps. Qed.
+
+(* ------------------------------------------------------------------------------------------------------------------
+   The REGENERATED regular expressions of value.py (Gen/Regexes.v), run through the backtracking engine of
+   Model/Regex.v, read directly for EVERY string (Proofs/C16rx.v); consequence: the statement-by-statement regex
+   version of value_parse_datetime (Model/CalendarRx.v, iso_parse_rx) IS the direct function iso_parse that the
+   theorems above are about. *)
+From BS Require Import Model.Regex Model.CalendarRx Gen.Unicode Gen.Regexes Proofs.C16rx.
+
+(* _R_DATE.match: the strings  dddd-dd-dd  (d = any Unicode decimal digit), optionally one final newline; a match
+   always ends at 10 with the groups year = [0,4), month = [5,7), day = [8,10) *)
+Theorem C16_date_regex_reading : forall s,
+  re_match UC R_DATE s = if date_rx_shape s then MYes 10 date_caps else MNo.
+Proof. exact date_regex_answer. Qed.
+Print Assumptions C16_date_regex_reading.
+
+(* ... and the date branch of the direct function reads exactly these strings and exactly int() of the group texts:
+   NO difference (Unicode digits and the final newline are accepted on both sides; int() never raises) *)
+Theorem C16_date_regex_is_parse_date_form : forall s,
+  match re_match UC R_DATE s with
+  | MYes e c => exists y m d, parse_date_form s = Some (y, m, d) /\
+                  py_int_digits (gtext s c R_DATE__year) 0 = Some y /\
+                  py_int_digits (gtext s c R_DATE__month) 0 = Some m /\
+                  py_int_digits (gtext s c R_DATE__day) 0 = Some d
+  | MNo => parse_date_form s = None
+  | MFuel => False
+  end.
+Proof. exact date_branch_agrees. Qed.
+Print Assumptions C16_date_regex_is_parse_date_form.
+
+Example C16_date_regex_reading_ex :
+  date_rx_shape (U "2024-02-29") = true /\ date_rx_shape (U "2024-02-29\00000a") = true /\
+  date_rx_shape (U "\000662\000660\000662\000664-\000660\000662-\000662\000669") = true /\
+  date_rx_shape (U "2024-2-29") = false /\ date_rx_shape (U " 2024-02-29") = false /\
+  date_rx_shape (U "2024-02-29\00000a\00000a") = false /\
+  iso_parse_rx (fun _ => 0) (U "\000662\000660\000662\000664-\000660\000662-\000662\000669") =
+    DOk (iso_parse (fun _ => 0) (U "2024-02-29")) /\ iso_parse (fun _ => 0) (U "2024-02-29") <> None.
+Proof. vm_compute. repeat split; discriminate. Qed.
+
+(* _R_DATETIME.match: dddd-dd-ddTdd:dd:dd, an optional '.' with 1..6 digits, then Z or [+-]dd:dd, optionally one
+   final newline (datetime_rx_len = the number of characters before that newline) *)
+Theorem C16_datetime_regex_reading : forall s,
+  re_match UC R_DATETIME s = match datetime_rx_len s with Some e => MYes e [] | None => MNo end.
+Proof. exact datetime_regex_answer. Qed.
+Print Assumptions C16_datetime_regex_reading.
+
+Example C16_datetime_regex_reading_ex :
+  datetime_rx_len (U "2024-03-10T01:30:00.123-05:00") = Some 29%nat /\
+  datetime_rx_len (U "2024-03-10T01:30:00Z\00000a") = Some 20%nat /\
+  datetime_rx_len (U "2024-03-10T01:30:00.1234567Z") = None /\ datetime_rx_len (U "2024-03-10T01:30:00.Z") = None /\
+  datetime_rx_len (U "2024-03-10T01:30:00") = None.
+Proof. vm_compute. repeat split. Qed.
+
+(* _R_DATETIME_ZULU.sub('+00:00', text): the Z that ends the text (or stands before one final newline) *)
+Theorem C16_zulu_regex_reading : forall s,
+  re_sub UC R_DATETIME_ZULU (fun _ _ => U "+00:00") s = Some (zulu s).
+Proof. exact zulu_sub_answer. Qed.
+Print Assumptions C16_zulu_regex_reading.
+
+Example C16_zulu_regex_reading_ex :
+  zulu (U "2024-03-10T01:30:00Z") = U "2024-03-10T01:30:00+00:00" /\ zulu (U "ZZ\00000a") = U "Z+00:00\00000a" /\
+  zulu (U "Z1") = U "Z1".
+Proof. vm_compute. repeat split. Qed.
+
+(* the substitution never changes what the direct datetime recogniser reads, and whatever it reads _R_DATETIME matches *)
+Theorem C16_zulu_is_transparent : forall s, parse_datetime_form (zulu s) = parse_datetime_form s.
+Proof. exact zulu_parse_datetime_form. Qed.
+Print Assumptions C16_zulu_is_transparent.
+
+Theorem C16_datetime_form_is_matched : forall s x, parse_datetime_form s = Some x -> datetime_rx_len s <> None.
+Proof. exact datetime_form_matches. Qed.
+Print Assumptions C16_datetime_form_is_matched.
+
+(* value_parse_datetime run on the regenerated regexes = the direct function, for EVERY string and EVERY zone:
+   never out of fuel, never an uncaught exception, the same value *)
+Theorem C16_parse_rx_is_parse : forall (off_utc : Z -> Z) s, iso_parse_rx off_utc s = DOk (iso_parse off_utc s).
+Proof. exact iso_parse_rx_is_iso_parse. Qed.
+Print Assumptions C16_parse_rx_is_parse.
+
+Example C16_parse_rx_is_parse_ex :
+  iso_parse_rx ex_off_utc (U "2024-03-10T01:30:00.123-05:00") = DOk (Some (trunc_ms ex_w_before)) /\
+  iso_parse_rx ex_off_utc (U "2024-03-10T06:30:00.123Z") = DOk (Some (trunc_ms ex_w_before)) /\
+  iso_parse_rx ex_off_utc (U "2024-03-10T06:30:00.123Z\00000a") = DOk None.
+Proof. vm_compute. repeat split. Qed.
+
+(* value_string, datetime branch: _R_DATETIME_MICROSECOND.search (the first '.' followed by six digits) and
+   _R_DATETIME_TZ_CLEANUP.sub(r'\1') ([+-]dd:dd:dd at the end loses its :dd), for EVERY text *)
+Theorem C16_microsecond_regex_reading : forall s,
+  re_search UC R_DATETIME_MICROSECOND s =
+  match us_find 0 s with
+  | Some b => MYes (7 + b) [(0%nat, (b, (7 + b)%nat)); (1%nat, (S b, (7 + b)%nat))]
+  | None => MNo
+  end.
+Proof. exact microsecond_search_answer. Qed.
+Print Assumptions C16_microsecond_regex_reading.
+
+Theorem C16_tz_cleanup_regex_reading : forall s,
+  re_sub UC R_DATETIME_TZ_CLEANUP (fun whole c => gtext whole c 1) s = Some (tz_cleanup s).
+Proof. exact tz_cleanup_sub_answer. Qed.
+Print Assumptions C16_tz_cleanup_regex_reading.
+
+Theorem C16_value_string_tail_reading : forall iso, value_string_tail iso = DOk (tz_cleanup (us_to_ms iso)).
+Proof. exact value_string_tail_answer. Qed.
+Print Assumptions C16_value_string_tail_reading.
+
+Example C16_value_string_tail_reading_ex :
+  us_find 0 (U "2024-03-10T01:30:00.123456-05:00") = Some 19%nat /\
+  tz_cleanup (us_to_ms (U "2024-03-10T01:30:00.123456-05:00")) = U "2024-03-10T01:30:00.123-05:00" /\
+  tz_cleanup (us_to_ms (U "1897-05-31T00:00:00+10:04:52")) = U "1897-05-31T00:00:00+10:04" /\
+  us_find 0 (U "1.12345") = None.
+Proof. vm_compute. repeat split. Qed.
+
+(* on the text aware_datetime.isoformat() produces (py_isoformat: six-digit fraction only when non-zero, offset seconds
+   only when non-zero) the two rewrites give exactly datetime_text: `.ffffff` -> `.mmm` by truncation, `:SS` removed *)
+Theorem C16_value_string_tail_of_isoformat : forall f o,
+  0 <= f_year f < 10000 -> 0 <= f_month f < 100 -> 0 <= f_day f < 100 -> 0 <= f_hour f < 100 ->
+  0 <= f_minute f < 100 -> 0 <= f_second f < 100 -> 0 <= f_us f < 1000000 -> Z.abs o < 360000 ->
+  value_string_tail (py_isoformat f o) = DOk (datetime_text f o).
+Proof. exact value_string_tail_isoformat. Qed.
+Print Assumptions C16_value_string_tail_of_isoformat.
+
+(* value_string(datetime) run on the regenerated regexes = the direct function iso_format of the theorems above, for
+   EVERY value and every zone whose UTC offsets are below 24 hours (Python's own bound for a utcoffset) *)
+Theorem C16_format_rx_is_format : forall (off_local off_utc : Z -> Z) w,
+  (forall u, Z.abs (off_utc u) < 86400) -> iso_format_rx off_local off_utc w = iso_format off_local off_utc w.
+Proof. exact iso_format_rx_is_iso_format. Qed.
+Print Assumptions C16_format_rx_is_format.
+
+Example C16_format_rx_is_format_ex :
+  (forall u, Z.abs (ex_off_utc u) < 86400) /\
+  iso_format_rx ex_off_local ex_off_utc ex_w_before = DOk (U "2024-03-10T01:30:00.123-05:00") /\
+  value_string_tail (py_isoformat (mkf 1897 5 31 0 0 0 0) 36292) = DOk (U "1897-05-31T00:00:00+10:04").
+Proof.
+  split; [|vm_compute; split; reflexivity].
+  intros u. unfold ex_off_utc. destruct (u <? ex_T); vm_compute; reflexivity.
+Qed.
